@@ -50,8 +50,9 @@ json generate(uint64_t seed, uint64_t idx, int tier)
 	steps.push_back(init);
 	if (t.mode == 1) {
 		if (r.chance(1, 2)) {
+			// an earlier search directory that does not exist, or one that holds DIRECTORIES named like the files wanted
 			json a0 = step(0, "addpath", 0);
-			a0["dir"] = "/nowhere";
+			a0["dir"] = r.chance(1, 2) ? "/nowhere" : "/shadow";
 			steps.push_back(a0);
 		}
 		json a = step(0, "addpath", 0);
@@ -75,6 +76,13 @@ json generate(uint64_t seed, uint64_t idx, int tier)
 		params["kind"] = "flat";
 		json p = top_parse(top, "/t/top.conf");
 		p["main"] = 1;
+		if (r.chance(1, 4)) {
+			// re-entry: one of the first callbacks - possibly running while an included file is open - creates, fills and
+			// releases a temporary context; the flat text gets the same action, so the results must still agree
+			p["cbact"] = r.chance(1, 2) ? "nested_parse" : "nested_parse_refused";
+			p["cbact_at"] = (uint64_t)r.range(1, 3);
+			p["cbact_c"] = 9;
+		}
 		steps.push_back(p);
 		// position restoration: a wrong token in the includer after the last include statement
 		if (r.chance(1, 2)) {
@@ -186,6 +194,18 @@ json generate(uint64_t seed, uint64_t idx, int tier)
 		steps.push_back(p);
 	}
 	plan["world"] = world_of(t);
+	{
+		// "/shadow": for every file of the tree a directory of the same name (a directory never matches)
+		json sh = json::array();
+		for (auto &f : plan["world"]["fs"]) {
+			std::string p = f["path"].get<std::string>();
+			if (f.value("kind", std::string()) == "file" && p.compare(0, 3, "/t/") == 0 && p.find('/', 3) == std::string::npos)
+				sh.push_back({{"path", "/shadow/" + p.substr(3)}, {"kind", "dir"}});
+		}
+		for (auto &e : sh)
+			plan["world"]["fs"].push_back(e);
+		plan["world"]["fs"].push_back({{"path", "/shadow"}, {"kind", "dir"}});
+	}
 	// a third of the worlds keep some files elsewhere and reach them through symbolic links in /t
 	if (r.chance(1, 3)) {
 		json links = json::array();
